@@ -76,6 +76,7 @@ Uniform(vs, g) == /\ \A j \in 1..Len(vs) : vs[j].c \in {"f", "i"} /\ (vs[j].c = 
 ConstValue(target, n) ==
   LET nv == NodeVal(target, n)
   IN  IF ~nv.ok THEN XV
+      ELSE IF nv.cls = "float" /\ IsComplexT(n.t) /\ target # "python" THEN ZV(nv.fmt, nv.bits, <<>>)
       ELSE IF nv.cls = "float" THEN FV(nv.fmt, nv.bits)
       ELSE IF nv.cls = "bool" THEN BV(nv.z # ZZero)
       ELSE IF target = "python" THEN IV(nv.z) ELSE XV
